@@ -167,6 +167,27 @@ func c14Property(t *rapid.T, st *Stats) {
 		}
 		expectServe = false
 	}
+	// directories a collection would consider empty: an empty directory, a layout that never received a manifest (an
+	// upload that was started and cancelled leaves index.json, oci-layout and an empty _uploads), an empty _uploads
+	// next to content. A read-only store that runs its collection (at Close, at cache eviction) removes them.
+	sparse := []string{}
+	if rapid.Bool().Draw(t, "sparseRepos") {
+		_ = os.MkdirAll(filepath.Join(root, "e1"), 0o755)
+		wc := baseConf(config.StoreDir, root)
+		wc.API.Referrer.Enabled = bp(writerRef)
+		w := olareg.New(wc)
+		if r := doReq(w, "POST", "/v2/e2/blobs/uploads/", nil, nil); r.code == 202 {
+			_ = doReq(w, "DELETE", sessionPath(r.hdr.Get("Location")), nil, nil)
+		}
+		_ = w.Close()
+		_ = os.MkdirAll(filepath.Join(root, "e2", "_uploads"), 0o755)
+		if rootKind == "healthy" {
+			_ = os.MkdirAll(filepath.Join(root, "r1", "_uploads"), 0o755)
+		}
+		sparse = []string{"e1", "e2"}
+		classes["sparse-repos"] = true
+		trace = append(trace, "sparse repositories e1 (empty directory), e2 (layout without manifests, empty _uploads)")
+	}
 	// age everything a little so that an mtime change is visible
 	old := time.Now().Add(-2 * time.Hour)
 	_ = filepath.Walk(root, func(p string, fi os.FileInfo, err error) error {
@@ -272,7 +293,7 @@ func c14Property(t *rapid.T, st *Stats) {
 	}
 	// ---- request mix
 	memWrites := mode == "mem+root"
-	repos := []string{"r1", "r2/n", "new/repo"}
+	repos := append([]string{"r1", "r2/n", "new/repo"}, sparse...)
 	someDigest := func() string {
 		for _, k := range kn {
 			for d := range k.blob {
